@@ -71,6 +71,12 @@ def gen_cases(rng, tier):
         yield {'api': 'create', 'store': kind, 'lines': lines, 'req': req, 'reject': True}
     for (kind, lines) in [s for s in STORES if s[0] == 'lines']:
         yield {'api': 'config', 'store': kind, 'lines': lines, 'req': '9998', 'reject': True}
+    # the ports reach the configuration object through an announcement (CONF_CHANGED naming SocksPort several times and, after it,
+    # another option by its bare keyword) instead of through the attach
+    for (kind, lines), req in itertools.product([s for s in STORES if s[0] == 'lines'], [None, '9050', '9999', 'unix:/tmp/s']):
+        if req is None and denote_py(first_word(lines[0])) is None:
+            continue
+        yield {'api': 'config', 'store': kind, 'lines': lines, 'req': req, 'announced': True}
     # ... after an earlier request on the same Tor object failed (Tor had no usable port then and refused to add one): the next request,
     # made when Tor does have one, gets it
     for (kind, lines) in STORES:
@@ -175,8 +181,16 @@ def run_impl(c):
                'getconf_answer': c['lines'] if c['store'] == 'lines' else None}
     elif c['api'] == 'config':
         from txtorcon import TorConfig
-        st = make_tor(c)
-        cfg = TorConfig(st.proto)
+        if c.get('announced'):
+            # the SOCKS ports are not there when the configuration object attaches: another controller sets them — and resets an
+            # unrelated option in the same breath — and Tor announces both in one CONF_CHANGED event
+            st = make_tor(dict(c, store='unset-nodefault', lines=None))
+            cfg = TorConfig(st.proto)
+            st.store['SocksPort'] = list(c['lines'])
+            st.send('650-CONF_CHANGED\r\n' + ''.join('650-SocksPort=%s\r\n' % l for l in c['lines']) + '650-Nickname\r\n650 OK\r\n')
+        else:
+            st = make_tor(c)
+            cfg = TorConfig(st.proto)
         n0 = len(st.commands('SETCONF'))
         out = []
         try:
@@ -372,7 +386,7 @@ def run_cases(cases, drv, tier):
                 # (two requests made at once are two look-ups: the same endpoint, not necessarily the same object)
                 ok2 = (im['second'] == im['endpoint']) and (im['same_object'] or im['endpoint'].startswith('fail') or bool(c.get('concurrent'))) and len(im['setconf']) <= 1
                 prop_ok = ok2 if prop_ok is None else (prop_ok and ok2)
-        tags = [c['api'] + ('-rejected' if c.get('reject') else '') + ('-concurrent' if c.get('concurrent') else '') + ('-after-failure' if c.get('after_failure') else ''), 'store=' + c.get('store', '-'), 'req=' + ('none' if c.get('req') is None else 'given')]
+        tags = [c['api'] + ('-rejected' if c.get('reject') else '') + ('-concurrent' if c.get('concurrent') else '') + ('-after-failure' if c.get('after_failure') else '') + ('-announced' if c.get('announced') else ''), 'store=' + c.get('store', '-'), 'req=' + ('none' if c.get('req') is None else 'given')]
         res.append(Result(c, im, model, spec, corr_ok=corr_ok, prop_ok=prop_ok, in_h=True,
                           nontrivial=bool(c.get('lines')) or any(o != 'ok' for o in c.get('outs', [])), tags=tags))
     return res
